@@ -12,7 +12,7 @@ def canary_ops(contracts, fn_filter):
     extra = {}
     names = []
     for m in contracts:
-        modname = os.path.basename(m.FILE)[:-3]
+        modname = core.mod_of(m.FILE)
         for op in m.OPS:
             if op.get('op') != 'fn':
                 continue
@@ -20,7 +20,7 @@ def canary_ops(contracts, fn_filter):
                 continue
             if 'spec' not in op and 'ret' not in op:
                 continue
-            full = f'{modname}::{op["path"]}' if modname != 'lib' else op['path']
+            full = core.norm_owner(f'{modname}::{op["path"]}')
             if not fn_filter(full):
                 continue
             extra.setdefault(m.FILE, []).append(
